@@ -233,3 +233,43 @@ pub fn run(ctx: &mut Ctx) {
         }
     });
 }
+
+/// seed corpus for the libFuzzer stage
+pub fn emit(dir: &str, seed: u64, n: usize) {
+    for i in 0..n {
+        let mut rng = Rng::new(crate::rng::mix(&[seed, 0xC01, i as u64]));
+        let text = match i % 4 {
+            0 => corpus::soup(&mut rng, 300),
+            1 => corpus::soup_multiline(&mut rng, 200),
+            2 => {
+                let d = rng.range(2, 40);
+                corpus::nesting(&mut rng, d)
+            }
+            _ => {
+                let p = {
+                    let mut g = SynGen::new(&mut rng);
+                    g.max_block_depth = 2;
+                    g.program()
+                };
+                let sp = Spelling::wild(&mut rng);
+                match render(&p, &sp, &mut rng) {
+                    Ok(r) if r.text.len() < 2000 => r.text,
+                    _ => continue,
+                }
+            }
+        };
+        let _ = std::fs::write(format!("{}/seed_{}", dir, i), text);
+    }
+}
+
+/// libFuzzer dictionary of every keyword alias and hot token
+pub fn emit_dict(path: &str) {
+    let mut s = String::new();
+    for w in crate::kw::all_words() {
+        s.push_str(&format!("\"{}\"\n", w.replace('\\', "\\\\").replace('"', "\\\"")));
+    }
+    for t in ["'s", "'re", "'n'", "\\x0a", "\\x0a\\x0a", ", ", " & ", "<=", ">=", "\\\"", "(", ")", "taking", "takes", "at", "like", "says ", "1x", "x_y"] {
+        s.push_str(&format!("\"{}\"\n", t));
+    }
+    let _ = std::fs::write(path, s);
+}
